@@ -36,10 +36,11 @@ func parseGoid(b []byte) int64 {
 // goroutineOrigin returns (entry function, parent goroutine id) of the calling
 // goroutine, from a full stack trace. Used once per goroutine, when a
 // goroutine the harness did not create reaches its first yield.
-func goroutineOrigin() (entry string, parent int64) {
+func goroutineOrigin() (entry string, parent int64, stack string) {
 	buf := make([]byte, 1<<16)
 	n := runtime.Stack(buf, false)
-	lines := strings.Split(string(buf[:n]), "\n")
+	stack = string(buf[:n])
+	lines := strings.Split(stack, "\n")
 	parent = -1
 	entry = "?"
 	for i := len(lines) - 1; i >= 0; i-- {
@@ -54,11 +55,11 @@ func goroutineOrigin() (entry string, parent int64) {
 			if i-2 >= 0 {
 				entry = shortFunc(lines[i-2])
 			}
-			return entry, parent
+			return entry, parent, stack
 		}
 	}
 	// no "created by": main goroutine or truncated trace
-	return entry, parent
+	return entry, parent, stack
 }
 
 func shortFunc(l string) string {
